@@ -144,6 +144,7 @@ func TestC01Grid(t *testing.T) {
 			r.Violation("bubble", "bubble-failure", "bubble failed: "+fail, nil)
 		}
 	}
+	r.Done()
 }
 
 func c01RunGrid(r *run.Runner, c c01Case) {
